@@ -202,6 +202,37 @@ pub fn run_deep_stack_probe(n: usize, stack_mb: usize) -> bool {
     }
 }
 
+/// `sim r-chain <stack MB>`: the real parser alone on a seven-lexeme input for which recovery can
+/// insert tokens for ever (`R0: R1 't3' R0 | 't0' | R0 't3'; R1: R0 | 't3' R1;`), under a clock
+/// fast enough (1.5 us per read: 333 000 reads in the budget) for the search to build repair
+/// chains as long as the cost type allows before the deadline. Returns whether the parse came back.
+pub fn run_long_chain_probe(stack_mb: usize) -> bool {
+    let Ok(b) = gram::build("%start R0\n%%\nR0: R1 't3' R0 | 't0' | R0 't3';\nR1: R0 | 't3' R1;\n") else { return true };
+    let t = |n: &str| b.grm.token_idx(n).unwrap().0;
+    let toks: Vec<u16> = vec![t("t3"), t("t3"), t("t3"), t("t0"), t("t0"), t("t3"), t("t3")];
+    let lexer = StubLexer::new(&toks, &[], &[]);
+    let clock = ClockPolicy { tick_ns: 1500, jumps: vec![] };
+    let (r, st) = sim_process_with_stack(12, Some(&clock), stack_mb << 20, || {
+        let lx: &StubLexer = &lexer;
+        type AF<'a, 'b, 'i> = &'a dyn Fn(RIdx<u16>, &'b dyn NonStreamingLexer<'i, LT>, Span, std::vec::Drain<AStackType<Lx, ()>>, ());
+        let unit = |_: RIdx<u16>, _: &dyn NonStreamingLexer<LT>, _: Span, _: std::vec::Drain<AStackType<Lx, ()>>, _: ()| {};
+        let nprods = usize::from(b.grm.prods_len());
+        let actions: Vec<AF> = (0..nprods).map(|_| &unit as AF).collect();
+        let (v, errs) = RTParserBuilder::<u16, LT>::new(&b.grm, &b.st).recoverer(RecoveryKind::CPCTPlus).parse_actions(&lx, &actions, ());
+        (v.is_some(), errs.len())
+    });
+    match r {
+        SimOutcome::Ok((v, e)) => {
+            println!("long-chain probe: stack={stack_mb}MB returned value={v} errors={e} after {} clock reads", st.clock_reads);
+            true
+        }
+        SimOutcome::Panic(m) => {
+            println!("long-chain probe: panicked: {m}");
+            false
+        }
+    }
+}
+
 /// Reductions beyond which a run is taken to loop (hidden left recursion): an acyclic grammar
 /// reduces at most (rules + 1) times per stack entry, and inserts are bounded by the cost cap.
 fn call_cap_for(b: &Built, lexer: &StubLexer) -> usize {
